@@ -1,10 +1,11 @@
 import LsModel.DriverA
 import LsModel.PropsA
 import LsModel.DriverStrat
+import LsModel.DriverDup
 /- lsdriver: one operation per input line, exactly one canonical output line per operation. -/
 open Ls.Drv
 
-def handlers : List (String → List String → Option String) := [opHeader, opMerge, opC02, opStrat]
+def handlers : List (String → List String → Option String) := [opHeader, opMerge, opC02, opStrat, opDup]
 
 def step (line : String) : String :=
   match (line.trimAscii.toString.split (· == ' ')).toList.map (·.toString) |>.filter (· ≠ "") with
